@@ -63,19 +63,30 @@ pub fn generate_markdown(
 
     let db = analysis.compilation.get_db();
     let type_index = db.get_type_index();
-    let types = type_index.get_all_types();
+    let vfs = db.get_vfs();
+    // The indexes are hash maps: iterate in a sorted order so that the generated files do not
+    // depend on the iteration order (two items can map to the same file name).
+    let mut types = type_index.get_all_types();
+    types.sort_by(|a, b| a.get_full_name().cmp(b.get_full_name()));
     for type_decl in types {
         generate_type_markdown(db, &tl, type_decl, &types_out, &mut mkdocs_index);
     }
 
     let module_index = db.get_module_index();
-    let modules = module_index.get_module_infos();
+    let mut modules = module_index.get_module_infos();
+    modules.sort_by(|a, b| {
+        (&a.full_module_name, vfs.get_file_path(&a.file_id))
+            .cmp(&(&b.full_module_name, vfs.get_file_path(&b.file_id)))
+    });
     for module in modules {
         generate_module_markdown(db, &tl, module, &module_out, &mut mkdocs_index);
     }
 
     let global_index = db.get_global_index();
-    let globals = global_index.get_all_global_decl_ids();
+    let mut globals = global_index.get_all_global_decl_ids();
+    globals.sort_by_cached_key(|global| {
+        (vfs.get_file_path(&global.file_id).cloned(), global.position)
+    });
     for global_decl_id in globals {
         generate_global_markdown(db, &tl, &global_decl_id, &global_out, &mut mkdocs_index);
     }
